@@ -510,16 +510,28 @@ def rule_order(rep: Report, rid="C03.order") -> None:
         found = []
         for s in segs:
             if s[0] == "if":
-                inner = s[2] if s[2] else s[3]
-                if len(inner) == 1 and inner[0][0] == "e" and not (s[2] and s[3]):
-                    dd = nf.resolve_ref_dict(I, inner[0][1], b.tree)
-                    cc = b.c(s[1])
-                    if dd and len(dd) == 1:
-                        k = next(iter(dd))
-                        v = b.c(dd[k][0])
-                        if v == cc and v[0] == "first" and v[1] == b.node:
-                            found.append((k, v[2], "?"))
-                            continue
+                # an optional child: present -> one envelope holding it, absent -> nothing (whatever way the test is spelt)
+                one = nf.map_seg_tests([s], b.c)
+                atoms = nf.seg_test_atoms(one)
+                kinds_ = {(a_[1], a_[2]) for a_ in atoms if a_[0] in ("items", "first", "single")}
+                cases = nf.seg_cases(one) if atoms and len(kinds_) == 1 and all(a_[0] in ("items", "first", "single") for a_ in atoms) else None
+                okc = bool(cases)
+                entry = None
+                for assign, sg in cases or []:
+                    if all(assign.values()):
+                        if len(sg) == 1 and sg[0][0] == "e":
+                            dd = nf.resolve_ref_dict(I, sg[0][1], b.tree)
+                            if dd and len(dd) == 1:
+                                k = next(iter(dd))
+                                v = b.c(dd[k][0])
+                                if v[0] == "first" and (v[1], v[2]) in kinds_ and v[1] == b.node:
+                                    entry = (k, v[2], "?")
+                        okc = okc and entry is not None
+                    else:
+                        okc = okc and sg == []
+                if okc and entry:
+                    found.append(entry)
+                    continue
                 found.append(("irregular", fmt_seg(s, I) if s[0] != "if" else "if " + fmt(s[1], I), ""))
             elif s[0] == "loop" and len(s[2]) == 1 and s[2][0][0] == "e":
                 info = I.loops[s[1]]
